@@ -90,8 +90,15 @@ def gen_plan(seed, tier):
     if not acc:
         acc = [rng.choice(ACCEL)]
     steps = [rng.choice(STALE) for _ in range(rng.choice([0, 1, 2, 2, 3, 4]))]
-    return {"kind": "accel", "seed": seed,
-            "n_commits": rng.randint(3, 9 if tier == "quick" else 25),
+    n_commits = rng.randint(3, 9 if tier == "quick" else 25)
+    # bitmaps only chain (XOR against an entry that is itself XOR-ed) in
+    # packs of some size with several overlapping tips: a share of the plans
+    # whose writer handle is asked gets a longer history, one pack, no
+    # staleness (own generator: the other plans of a seed stay as they were)
+    brng = random.Random(derive_seed(seed, "c14bm"))
+    bitmap_chain = brng.random() < 0.12
+    plan = {"kind": "accel", "seed": seed,
+            "n_commits": n_commits,
             "npacks": rng.choice([1, 1, 2, 3]),
             "accel": acc, "idx_version": rng.choice([1, 2, 2, 3]),
             "stale": steps,
@@ -118,6 +125,12 @@ def gen_plan(seed, tier):
             "octopus": rng.choice([0, 0, 0, 0.3, 0.6]),
             "warm": rng.choice(["get_raw", "get_raw", "contains", "packs",
                                 "none"])}
+    if bitmap_chain:
+        plan.update({"n_commits": brng.randint(16, 28), "npacks": 1,
+                     "accel": sorted(set(acc) | {"bitmap"}), "stale": [],
+                     "mismatch": None, "race": None, "keep_writer": True,
+                     "shallow_first": False, "bitmap_chain": True})
+    return plan
 
 
 def strip_accelerators(path):
